@@ -641,6 +641,75 @@ def make_cases(ctx, W):
         cases.append({"id": i, "kind": "7z", "actions": ["exhaust"], "path": "A.7z", "count_entries": False, "hex": data.hex()})
         meta[i] = {"kind": "7z", "members": members, "actions": ["exhaust"], "label": "filesinfo-props", "limits": None,
                    "layout": "solid", "props": pinfo}
+    # 5f. the SECOND occurrence of a name: duplicate member names whose entries differ in what the rules see (size),
+    #     in both orders, in every container — each entry must be judged and read on its own
+    for kind, zm in [("zip", zipfile.ZIP_STORED), ("zip", zipfile.ZIP_DEFLATED), ("tar", None), ("tar.gz", None), ("7z", None)]:
+        for order in ("small-big", "big-small", "small-big-small"):
+            ms = []
+            for j, what in enumerate(order.split("-")):
+                mm = member("plain" if what == "small" else "oversize-declared", "dup.txt", j)
+                n = 900 if what == "small" else 5000
+                mm["data"] = (mm["token"].encode() + b" " + what.encode() + b" " + b"x" * n)[:n]
+                ms.append(mm)
+            ms.append(member("plain", "other.md", 9))
+            import warnings
+            with warnings.catch_warnings():
+                warnings.simplefilter("ignore")
+                add(kind, ms, ["exhaust"], limits=[3000, real_entry], label="duplicate-names:" + order, zip_method=zm,
+                    layout=rng.choice(["solid", "per-file"]) if kind == "7z" else None)
+    # 5g. members that must be skipped standing BEFORE visible ones, one 7z folder per member (non-solid) as well as solid,
+    #     and in zip/tar: no byte of a skipped member may surface under another member's name
+    for kind, layout in [("7z", "per-file"), ("7z", "solid"), ("zip", None), ("tar", None)]:
+        for cls, nm in [("hidden", ".x.txt"), ("macosx", "__MACOSX/._v.txt"), ("nested", "n.zip"), ("nested", "n.gz"),
+                        ("unsupported", "blob.exe"), ("oversize-declared", "huge.txt")]:
+            first = member(cls, nm, 0)
+            if cls == "nested":
+                first["data"] = nested_payload(nm, first["token"])
+            elif cls == "oversize-declared":
+                first["data"] = (first["token"].encode() + b" " + b"x" * 5000)[:5000]
+            else:
+                first["data"] = (first["token"].encode() + b" skipped member body " + b"s" * 200)
+            second = member(cls, "d/" + nm, 2)
+            second["data"] = first["data"].replace(first["token"].encode(), second["token"].encode()) if cls != "nested" \
+                else nested_payload(nm, second["token"])
+            ms = [first, member("plain", "visible.txt", 1), second, member("plain", "visible2.md", 3)]
+            add(kind, ms, ["exhaust"], limits=[3000, real_entry], label="skipped-before-visible:" + cls, layout=layout)
+    # 5h. 7z members carrying the UNIX symbolic-link attribute (p7zip convention), alone and in CHAINS where a later link
+    #     walks through an earlier one; both encodings of the attributes record (with / without the 'external' byte)
+    LNK = (0o120777 << 16) | 0x8000
+    REG = (0o100644 << 16) | 0x8000 | 0x20
+
+    def b_links7z(Wk, tok, shape, ext):
+        can_ = os.path.join(Wk, "canary", "secret.txt")
+        body = (tok(9) + " regular member").encode()
+        if shape.startswith("chain-read"):
+            k = int(shape[-1])
+            files = [("x/up", b"..", LNK), ("x/l.txt", ("up/" + "../" * k + "canary/secret.txt").encode(), LNK), ("ok.txt", body, REG)]
+        elif shape.startswith("chain-write"):
+            k = int(shape[-1])
+            files = [("x/up", b"..", LNK), ("x/out", ("up/" + "../" * k).rstrip("/").encode() or b"up", LNK),
+                     ("x/out/dropped.txt", body, REG), ("ok.txt", body, REG)]
+        elif shape == "chain3":
+            files = [("a/u1", b"..", LNK), ("a/u2", b"u1/..", LNK), ("a/l.md", b"u2/../canary/secret.md", LNK), ("ok.txt", body, REG)]
+        elif shape == "single-abs":
+            files = [("l.txt", can_.encode(), LNK), ("ok.txt", body, REG)]
+        elif shape == "single-dotdot":
+            files = [("d/l.txt", b"../../../canary/secret.txt", LNK), ("ok.txt", body, REG)]
+        elif shape == "dir-link-then-file":
+            files = [("out", b"..", LNK), ("out/evil.txt", body, REG), ("ok.txt", body, REG)]
+        else:
+            files = [("self", b"self", LNK), ("loop/a", b"b", LNK), ("loop/b", b"a", LNK), ("ok.txt", body, REG)]
+        data = write_7z([{"name": n, "data": d, "attr": a} for n, d, a in files], layout=rng.choice(["solid", "per-file"]),
+                        attr_external_byte=ext)
+        ms = [{"cls": "7z-symlink-" + shape if a == LNK else "plain", "name": n, "token": tok(j) + "-absent", "data": d}
+              for j, (n, d, a) in enumerate(files)]
+        ms[-1]["token"] = tok(9)
+        return data, ms
+    for shape in ["chain-read1", "chain-read2", "chain-read3", "chain-read4", "chain-write0", "chain-write1", "chain-write2",
+                  "chain3", "single-abs", "single-dotdot", "dir-link-then-file", "loops"]:
+        for ext in (False, True):
+            add_built("7z", lambda Wk, tok, shape=shape, ext=ext: b_links7z(Wk, tok, shape, ext), ["exhaust"],
+                      f"7z-symlink-attr:{shape}:{'ext' if ext else 'noext'}")
     # 6. consumer behaviours on multi-member archives (7z: with a pre-run that records the oracle `yields`)
     n_hist = ctx.n(2, 6)
     for r in range(n_hist):
@@ -771,7 +840,14 @@ def judge(ctx, c, m, res, token, roots, router_info):
             ctx.finding(f"fs-event-nonpath:{kind}:{ev}", f"{ev} on a non-path {p!r} during {label}", dict(replay, event=e))
             continue
         full = p if p.startswith("/") else os.path.join(cwd, p)
-        if any(inside(full, td) for td in tds):
+        real = e.get("real") or full
+        if ev in ("os.symlink", "os.link"):
+            # creating a link is judged by WHERE it is created (the target string is only text until it is followed;
+            # every later event is judged on its resolved path)
+            full = e.get("dst") or full
+            full = full if full.startswith("/") else os.path.join(cwd, full)
+            real = e.get("dst_real") or full
+        if any(inside(full, td) and inside(real, td) for td in tds):
             continue
         if ev == "os.mkdir" and e.get("existed") and any(inside(td, os.path.normpath(full)) for td in tds + [root]):
             continue   # makedirs(exist_ok) on an existing ancestor of the private directory: no-op
@@ -785,8 +861,9 @@ def judge(ctx, c, m, res, token, roots, router_info):
         if ev in ("os.listdir", "os.scandir") and under_code:
             n_code += 1          # importlib's FileFinder lists package directories
             continue
+        via = f" (resolves to {real!r})" if real != os.path.normpath(full) else ""
         ctx.finding(f"fs-outside:{kind}:{ev}:{label if label not in ('mix', 'history') else 'mixed'}",
-                    f"{ev} on {p!r} outside the private temporary directory while processing a {kind} ({label})",
+                    f"{ev} on {p!r}{via} outside the private temporary directory while processing a {kind} ({label})",
                     dict(replay, event=e, tempdirs=tds))
     ctx.count("code-load-reads", n_code)
     for td in tds:
@@ -818,7 +895,7 @@ def judge(ctx, c, m, res, token, roots, router_info):
     #  only meaningful when every stream-carrying entry has its own data)
     # (likewise a multi-folder 7z: which bytes a member receives there is property C10's subject — a known defect
     #  hands every folder the first pack stream — so content attribution is judged on single-folder archives)
-    attributable = not any(x.get("lie") for x in m["members"]) and m.get("layout") in (None, "solid")
+    attributable = not any(x.get("lie") for x in m["members"])
     for mm in (m["members"] if attributable else []):
         nm = mm.get("eff", mm["name"])           # the name the container library reports (pax / unicode-path overrides)
         bn = os.path.basename(nm)
@@ -842,6 +919,8 @@ def judge(ctx, c, m, res, token, roots, router_info):
                 rule = "oversize"
                 if m["label"] == "boundary":
                     rule = "oversize-boundary"
+                elif m["label"].startswith("duplicate-names"):
+                    rule = "oversize-duplicate-name"
             else:
                 rule = None
         if rule and mm["token"] in alltext:
@@ -850,6 +929,11 @@ def judge(ctx, c, m, res, token, roots, router_info):
                 ctx.finding(f"skip:oversize-boundary:{kind}", f"member {nm!r} of {len(mm['data'])} bytes produced a result from a "
                             f"{kind} archive although max_memory_size={m['limits'][0]} (oversize members never produce results)",
                             dict(replay, member=nm, size=len(mm["data"]), max_memory_size=m["limits"][0], rule=rule))
+            elif rule == "oversize-duplicate-name":
+                ctx.finding(f"skip:oversize-duplicate-name:{kind}", f"{kind} archive listing the name {nm!r} more than once "
+                            f"({m['label'].split(':')[1]}): the {len(mm['data'])}-byte entry exceeds max_memory_size={limit} but its "
+                            f"content appears in a result (served under the same-named smaller entry)",
+                            dict(replay, member=nm, size=len(mm["data"]), max_memory_size=limit, order=m["label"], rule=rule))
             else:
                 ctx.finding(f"skip:{rule}:{ext}", f"member {nm!r} ({rule}) of a {kind} archive produced a result",
                             dict(replay, member=nm, rule=rule))
@@ -1068,6 +1152,35 @@ def run(ctx):
                     coq_list(acts), coq_list(obs)))
                 life_info.append((c["id"], m["actions"], P, r["steps"]))
     ctx.obligation("harness:all-worker-cases-completed", not herr, str(herr[:2])[:1500])
+
+    # ---- environment dimension: the results of read_archive on a sample of the generated (well-formed, small) archives
+    #      must not depend on DEBUG logging, thread, time zone or cwd.  In-process, with tempfile pointed at a private
+    #      nested directory; corrupt containers and large archives stay in the watchdogged worker only.
+    sample = [c for c in cases if c.get("hex") and len(c["hex"]) < 40000 and c["kind"] != "skipnames"
+              and not meta[c["id"]]["label"].startswith("corrupt") and meta[c["id"]]["actions"] == ["exhaust"]
+              and not meta[c["id"]]["limits"]]
+    ctx.rng.shuffle(sample)
+    sample = sample[: ctx.n(120, 400)]
+    sweep_root = tempfile.mkdtemp(prefix="c09-sweep-", dir="/var/tmp")
+    old_tmp = tempfile.tempdir
+    try:
+        os.makedirs(os.path.join(sweep_root, "a", "b", "c"))
+        tempfile.tempdir = os.path.join(sweep_root, "a", "b", "c")
+
+        def sweep_fn(c):
+            out = []
+            for res in ax.read_archive(io.BytesIO(bytes.fromhex(c["hex"])), path="A." + c["kind"]):
+                try:
+                    fp = res.get_metadata().file_path
+                except Exception:  # noqa
+                    fp = None
+                out.append((fp, res.get_full_text()[:2000]))
+            return tuple(out)
+        common.env_sweep(ctx, "read_archive", sweep_fn, sample,
+                         describe=lambda c: repr((c["kind"], meta[c["id"]]["label"], c["hex"][:4000])))
+    finally:
+        tempfile.tempdir = old_tmp
+        shutil.rmtree(sweep_root, ignore_errors=True)
 
     # ---- os.path / _safe_join correspondence (pure functions, run in-process)
     rng = ctx.rng
